@@ -101,7 +101,9 @@ class ApproximationScheme(object):
             Each approx_groups entry contains specific data for a wrt var.
             Each colored_approx_groups entry contains data for a group of columns.
         """
-        if under_cs != self._approx_groups_cached_under_cs:
+        if under_cs != self._approx_groups_cached_under_cs or \
+                any(meta.get('step_calc') not in (None, 'abs') for meta in self._wrt_meta.values()):
+            # (a relative step depends on the current value of the wrt variable)
             if coloring_mod._use_partial_sparsity:
                 self._init_colored_approximations(system)
             self._init_approximations(system)
